@@ -51,6 +51,9 @@ if __name__ == '__main__':
     if args and args[0] == '--checks':
         checks = ALL if args[1] == 'all' else args[1].split(',')
         args = args[2:]
+    # an id may carry its own list of checks: C02-r5m2:C04,C13
+    per = {a.split(':')[0]: a.split(':')[1].split(',') for a in args if ':' in a}
+    args = [a.split(':')[0] for a in args]
     dirs = [d for d in sorted(glob.glob('/verif/seeded/*/')) if os.path.exists(d + 'patch.diff') and (not args or os.path.basename(d.rstrip('/')) in args)]
     with ThreadPoolExecutor(max_workers=3) as ex:
-        list(ex.map(lambda d: job(d, checks), dirs))
+        list(ex.map(lambda d: job(d, per.get(os.path.basename(d.rstrip('/')), checks)), dirs))
